@@ -57,6 +57,38 @@ def run_case(ctx, rng, idx):
     if m <= 4:
         h, uni = gen_hypergraph(rng)
         static_case(ctx, rng, h, idx, stress=False)
+        from ..mutate import same_count_edit
+
+        if same_count_edit(rng, h):  # same object, same counts, other structure: stale memos show here
+            ctx.event("re-evaluated-after-in-place-edit")
+            static_case(ctx, rng, h, idx, stress=False)
+        # same number of nodes, another node set (a node replaced by a new label)
+        nodes = list(h.get_nodes())
+        spare = [x for x in history.UNIVERSES[uni] if x not in nodes]
+        if nodes and spare:
+            h.remove_node(rng.choice(nodes))
+            new = rng.choice(spare)
+            rest = list(h.get_nodes())
+            if rest and rng.random() < 0.7:
+                h.add_edge((new, rng.choice(rest)), weight=2 if h.is_weighted() else None)
+            else:
+                h.add_node(new)
+            ctx.event("re-evaluated-after-node-replacement")
+            static_case(ctx, rng, h, idx, stress=False)
+    elif m == 5 and (idx // 8) % 2 == 1:
+        # second stress family: a hub in 256+ hyperedges of ONE order (non-contiguous labels, an isolated node)
+        import hypergraphx as hgx
+
+        n_leaves = rng.choice([255, 256, 257, 300])
+        k = rng.choice([2, 2, 3])
+        base = rng.choice([7, 1000])
+        hub = base
+        h = hgx.Hypergraph()
+        leaves = [base + 2 * (i + 1) for i in range(n_leaves * (k - 1))]
+        for i in range(n_leaves):
+            h.add_edge((hub,) + tuple(leaves[i * (k - 1): (i + 1) * (k - 1)]))
+        h.add_node(base - 3)
+        hub_case(ctx, rng, h, idx, k - 1)
     elif m == 5:
         import hypergraphx as hgx
 
@@ -210,6 +242,46 @@ def static_case(ctx, rng, h, idx, stress):
         ctx.check("C09:per-order", False, f"C09:incidence_matrices_all_orders:raised:{type(all_inc.e).__name__}", lambda: wit(all_inc))
 
 
+def hub_case(ctx, rng, h, idx, d):
+    """per-order adjacency and Laplacian on a hub with >= 255 hyperedges of one order; the dense references are
+    obtained from an int64 incidence matrix built from the public listing (definition: counts of shared hyperedges)"""
+    from hypergraphx import linalg as la
+
+    nodes = sorted(h.get_nodes())
+    row = {n: i for i, n in enumerate(nodes)}
+    edges = [tuple(e) for e in h.get_edges()]
+    N = len(nodes)
+    B = np.zeros((N, len(edges)), dtype=np.int64)
+    for j, e in enumerate(edges):
+        for v in e:
+            B[row[v], j] = 1
+    refA = B @ B.T
+    degs = np.diag(refA).copy()
+    np.fill_diagonal(refA, 0)
+
+    def wit(extra=None):
+        return {"hub family": {"hyperedges": len(edges), "order": d, "nodes": N}, "extra": repr(extra)[:400]}
+
+    r = call(la.adjacency_matrix_by_order, h, d, return_mapping=True)
+    if isinstance(r, _Raised):
+        ctx.check("C09:per-order", False, f"C09:adjacency_matrix_by_order:raised:{type(r.e).__name__}:hub", lambda: wit(r))
+    else:
+        A, mp = r
+        A = dense(A)
+        if check_mapping(ctx, mp, nodes, A.shape[0], "adjacency_matrix_by_order", wit):
+            perm = [row[mp[i]] for i in range(N)]
+            ctx.check("C09:per-order", np.array_equal(A, refA[np.ix_(perm, perm)]), "C09:adjacency_matrix_by_order:entries:hub", lambda: wit((float(A.max()), int(refA.max()))))
+    r = call(la.laplacian_matrix_by_order, h, d)
+    if isinstance(r, _Raised):
+        ctx.check("C09:laplacian", False, f"C09:laplacian_matrix_by_order:raised:{type(r.e).__name__}:hub", lambda: wit(r))
+    else:
+        L = dense(r)
+        refL = d * np.diag(degs) - refA  # rows in sorted-label order = the library's mapping order
+        ctx.check("C09:laplacian", L.shape == refL.shape and np.array_equal(L, refL), "C09:laplacian_matrix_by_order:entries:hub", lambda: wit((np.diag(L)[:3].tolist(), np.diag(refL)[:3].tolist())))
+        ctx.check("C09:laplacian", L.shape == (N, N) and not L.sum(axis=1).any(), "C09:laplacian:row-sums-not-zero:hub", lambda: wit(float(np.abs(L.sum(axis=1)).max())))
+    ctx.distinct_add(("hub", len(edges), d, nodes[0]))
+
+
 def tensor_case(ctx, rng, idx):
     import hypergraphx as hgx
     from hypergraphx.linalg import adjacency_tensor
@@ -266,10 +338,16 @@ def temporal_case(ctx, rng, idx):
         ctx.note("build-failed:" + type(e).__name__)
         return
     h = live[0][0]
+    temporal_eval(ctx, rng, idx, h, 0)
+
+
+def temporal_eval(ctx, rng, idx, h, phase):
+    from hypergraphx.linalg import temporal_adjacency_matrix
+
     S = observe(h)
 
     def wit(extra=None):
-        return {"object": S.describe(), "extra": repr(extra)[:600]}
+        return {"object": S.describe(), "phase": phase, "extra": repr(extra)[:600]}
 
     for name, fn in (("function", lambda: temporal_adjacency_matrix(h, return_mapping=True)),
                      ("method", lambda: h.temporal_adjacency_matrix(return_mapping=True))):
@@ -298,5 +376,14 @@ def temporal_case(ctx, rng, idx):
             ctx.check("C09:temporal", np.array_equal(A, ref), "C09:temporal_adjacency_matrix:entries", lambda: wit((t, A.tolist(), ref.tolist())))
     S2 = observe(h)
     ctx.check("C09:temporal", S2.same(S, with_hgmd=True), "C09:temporal_adjacency_matrix:mutated-argument", wit)
+    if phase == 0 and S.edges:
+        # a caller editing the snapshots it was handed must not change what the temporal hypergraph answers next
+        try:
+            for g in h.subhypergraph().values():
+                g.add_node("__caller_edit__" if any(isinstance(n, str) for n in S.nodes) else -424242)
+        except Exception as e:
+            ctx.note("snapshot-edit-raised:" + type(e).__name__)
+        ctx.event("re-evaluated-after-editing-returned-snapshots")
+        temporal_eval(ctx, rng, idx, h, 1)
     if len(S.edges) >= 2:
         ctx.distinct_add(("T", S.freeze()))
